@@ -135,8 +135,17 @@ func DataKeyRange() (minKey, maxKey Key) {
 // DataInstanceKeyRange returns the min and max Key across all keys for a data instance.
 func DataInstanceKeyRange(d dvid.InstanceID) (minKey, maxKey Key) {
 	minKey = append([]byte{dataKeyPrefix}, d.Bytes()...)
-	maxKey = append([]byte{dataKeyPrefix}, (d + 1).Bytes()...) // still less than first key of next instance
-	return minKey, maxKey
+	return minKey, instanceEndKey(d)
+}
+
+// instanceEndKey returns a key that follows every key of the data instance and
+// precedes every key of a later instance or of the next key space.
+func instanceEndKey(d dvid.InstanceID) Key {
+	if d == dvid.MaxInstanceID {
+		// d + 1 would wrap around to instance 0; the data key space ends with this instance.
+		return Key{dataKeyPrefix + 1}
+	}
+	return append([]byte{dataKeyPrefix}, (d + 1).Bytes()...) // still less than first key of next instance
 }
 
 const (
@@ -468,9 +477,7 @@ func (ctx *DataContext) TKeyClassRange(c TKeyClass) (min, max Key) {
 func (ctx *DataContext) KeyRange() (min, max Key) {
 	id := ctx.data.InstanceID()
 	min = append([]byte{dataKeyPrefix}, id.Bytes()...)
-	id++
-	max = append([]byte{dataKeyPrefix}, id.Bytes()...)
-	return min, max
+	return min, instanceEndKey(id)
 }
 
 func MinDataKey() Key {
